@@ -243,3 +243,39 @@ def check(cx):
         hub = any(c.callee.endswith("::header_used_bytes") for c in fn_.calls())
         cx.verdict(ub and hub, r5, "scan-bounded-by-used_bytes", fn_.where(), "both block kinds are scanned up to used_bytes",
                    "next_ref no longer bounds the scan of a block by its used_bytes")
+
+    # ---- C17.6 the reader ends only when the file has no more blocks; dropping the log forces it --------------------------------
+    r6 = cx.rule("C17.6", "MPR/MPT: every `Ok(None)` (end of log) returned by WalReader::next_ref is dominated by a call of reload_blocks (an empty "
+                 "block zero does not mean an empty log: a first record too large for block zero goes to block one); Drop for "
+                 "WriteAheadLog reaches flush on every path (block zero is itself a buffer)", floor=3)
+    fn2 = p.find_fns(r"WalReader.*::next_ref$")
+    if not fn2:
+        cx.bad(r6, "next_ref:anchor-missing", "", "WalReader::next_ref not found")
+    else:
+        g = fn2[0]
+        rl = [c for c in g.calls() if c.callee.endswith("::reload_blocks")]
+        ends = []
+        for bi, b in enumerate(g.blocks):
+            for st in b["stmts"]:
+                if st["rv"].get("r") == "agg" and st["rv"].get("adt") == "std::option::Option" and st["rv"].get("variant") == "None" and len(st["dst"]) == 1:
+                    # does it flow into the returned Ok(..)?
+                    tgt = st["dst"][0]
+                    if any(s2["dst"] == [0] and s2["rv"].get("r") == "agg" and any(op_local(o) == tgt for o in s2["rv"]["o"])
+                           for b2 in g.blocks for s2 in b2["stmts"]):
+                        ends.append(bi)
+        if not ends or not rl:
+            cx.bad(r6, "next_ref:end-of-log", g.where(), "next_ref has no end-of-log return or no reload_blocks call")
+        for i, e in enumerate(sorted(ends)):
+            cx.verdict(any(g.dominates(c.bb, e) for c in rl), r6, "next_ref:end-of-log#%d" % i, g.where(), "dominated by reload_blocks",
+                       "WalReader::next_ref can report the end of the log without having asked the file for more blocks (e.g. because block "
+                       "zero is empty): every record of a log whose first record went to block one is invisible, also to recovery's analysis")
+    fdrop = p.fns.get("<io::wal::WriteAheadLog as std::ops::Drop>::drop")
+    if fdrop is None:
+        cx.bad(r6, "drop-forces", "", "impl Drop for WriteAheadLog not found")
+    else:
+        fl = {c.bb for c in fdrop.calls() if c.callee.endswith("::flush") or c.callee.endswith("perform_flush")}
+        rets = [bi for bi, b in enumerate(fdrop.blocks) if b["term"]["t"] == "ret"]
+        free = fdrop.reachable(0, blocked=fl) & set(rets)
+        cx.verdict(bool(fl) and not free, r6, "drop-forces", fdrop.where(), "flush on every path of drop",
+                   "Drop for WriteAheadLog can return without forcing the log: records appended to block zero since the last force are lost "
+                   "on a close that nobody forced explicitly")
